@@ -383,6 +383,11 @@ def random_instance(rnd, family, stable=False):
            and elems[i].get('module') is None and (i + 1 >= n_elems or elems[i + 1]['rel']['type'] == 'joint')]
     if pre and rnd.random() < 0.4:
         inst['pre_declare'] = [rnd.choice(pre)]
+    wormed = [i for i in range(1, n_elems) if elems[i]['rel']['type'] == 'worm']
+    if wormed and rnd.random() < 0.35:
+        # the worm mating was first declared with another friction (a sweep over friction coefficients on the same objects)
+        i = rnd.choice(wormed)
+        inst['pre_worm'] = {i: rnd.choice([F(9, 10), F(3, 5), F(2, 5), F(1, 20), F(1, 1000), sig(rnd.uniform(0, 0.9))])}
     geared = [i for i in range(1, n_elems) if elems[i]['rel']['type'] == 'gear']
 
     def redeclare():
